@@ -355,16 +355,18 @@ def gen_make_request(rng):
             'extra_args': rng.choice([[], [], ['x'], ['y'], ['x', 'y']]),
             'kwargs': rng.choice([{}, {}, {'food': 'egg'},
                                   {'food': 'spam'}]),
-            'deps': rng.choice([[], [], [0], [1], [0, 1]]),
-            'soft_deps': rng.choice([[], [], [2], [1]]),
+            # (dependencies are sets: their order in the call is no part of
+            # the request)
+            'deps': rng.choice([[], [], [0], [1], [0, 1], [1, 0]]),
+            'soft_deps': rng.choice([[], [], [2], [1], [1, 2], [2, 1]]),
             'subprocess_args': rng.choice([{}, {}, {'env': {'VFVAR': 'one'}},
                                            {'env': {'VFVAR': 'two'}}])}
 
 
 def make_signature(req):
     return (req['factory'], req['name'], tuple(req['extra_args']),
-            tuple(sorted(req['kwargs'].items())), tuple(req['deps']),
-            tuple(req['soft_deps']),
+            tuple(sorted(req['kwargs'].items())), tuple(sorted(req['deps'])),
+            tuple(sorted(req['soft_deps'])),
             tuple(sorted((k, tuple(sorted(v.items())))
                          for k, v in req['subprocess_args'].items())))
 
